@@ -37,7 +37,7 @@ def nontrivial(case, tr):
 replay = SC.replay_with(judge)
 
 
-POOL_RUNS = {'quick': 40, 'thorough': 400}
+POOL_RUNS = {'quick': 20, 'thorough': 400}
 
 
 def run_shard(tier, idx, nshards, rec, known):
